@@ -274,6 +274,11 @@ def C05_full : Prop :=
 theorem parse_encode : C05_full := fun _ _ _ hwf henc =>
   ⟨readMap_enc henc, loadEntries_tables henc hwf, parseDex_declared henc hwf⟩
 
+/-- The well-formedness hypotheses cannot be dropped: a file that encodes a type_ids section without
+    a string_ids section makes the loader raise KeyError (TypeIdItem.__init__ → get_string; the
+    real loader does the same, stream `dex-missing-section` of the correspondence). -/
+theorem wf_needed : ∃ file L T, Encodes file L T ∧ parseDex file = .error "KeyError" := encodes_not_enough
+
 /-- A layout-parametric writer: `build T L size` writes header.map_off, the map list and every
     listed section into `size` zero bytes.  Whenever the layout is `Consistent` with the tables
     (decidable: the regions fit and are pairwise disjoint, map entries carry the row counts,
